@@ -687,4 +687,102 @@ theorem C18_select_members_mirrored (n : String) (ms : List String) :
   intro es m _ ⟨e, he, hn⟩
   exact ⟨classOf es e, List.mem_map.mpr ⟨e, he, rfl⟩, by simp [classOf, hn]⟩
 
+/-! ## the recursion depth always suffices -/
+
+namespace EntityOrder
+
+
+theorem nodup_subset_length_le {α} [DecidableEq α] : ∀ (l m : List α), l.Nodup → (∀ x ∈ l, x ∈ m) → l.length ≤ m.length
+  | [], _, _, _ => Nat.zero_le _
+  | a :: l, m, hn, hs => by
+    have ha : a ∈ m := hs a List.mem_cons_self
+    have hn' := List.nodup_cons.mp hn
+    have hsub : ∀ x ∈ l, x ∈ m.erase a := by
+      intro x hx
+      have hne : x ≠ a := fun h => hn'.1 (h ▸ hx)
+      exact (List.mem_erase_of_ne hne).mpr (hs x (List.mem_cons_of_mem _ hx))
+    have := nodup_subset_length_le l (m.erase a) hn'.2 hsub
+    rw [List.length_erase_of_mem ha] at this
+    have hpos : 0 < m.length := List.length_pos_of_mem ha
+    simp only [List.length_cons]; omega
+
+theorem find_some_name_mem {es : List Entity} {n : String} {e : Entity} (h : find es n = some e) :
+    n ∈ es.map (·.name) := by
+  unfold find at h
+  have hm := List.mem_of_find?_eq_some h
+  have hp := List.find?_some h
+  simp only [beq_iff_eq] at hp
+  exact List.mem_map.mpr ⟨e, hm, hp⟩
+
+/-- the recursion never runs out of depth: the stack holds distinct entities of the schema, so `fuel + |stack|` above
+the number of entities is enough — marks (not acyclicity) bound the depth -/
+theorem dfs_completes (es : List Entity) :
+    ∀ (f : Nat) (stack out : List String) (n : String),
+      stack.Nodup → (∀ s ∈ stack, s ∈ es.map (·.name)) → es.length < f + stack.length →
+      ∃ out', dfs es f stack out n = some out' := by
+  intro f
+  induction f with
+  | zero =>
+    intro stack out n hnd hsub hlt
+    have := nodup_subset_length_le stack (es.map (·.name)) hnd hsub
+    simp at this; omega
+  | succ f ih =>
+    intro stack out n hnd hsub hlt
+    simp only [dfs]
+    by_cases hm : n ∈ out ∨ n ∈ stack
+    · rw [if_pos hm]; exact ⟨out, rfl⟩
+    · rw [if_neg hm]
+      cases hf : find es n with
+      | none => exact ⟨out, rfl⟩
+      | some e =>
+        simp only
+        have hns : n ∉ stack := fun h => hm (Or.inr h)
+        have hnd' : (n :: stack).Nodup := List.nodup_cons.mpr ⟨hns, hnd⟩
+        have hsub' : ∀ s ∈ n :: stack, s ∈ es.map (·.name) := by
+          intro s hs
+          rcases List.mem_cons.mp hs with rfl | hs
+          · exact find_some_name_mem hf
+          · exact hsub s hs
+        have hlt' : es.length < f + (n :: stack).length := by simp only [List.length_cons]; omega
+        have loop : ∀ (ps : List String) (o : List String),
+            ∃ o', ps.foldlM (fun o p => dfs es f (n :: stack) o p) o = some o' := by
+          intro ps
+          induction ps with
+          | nil => intro o; exact ⟨o, rfl⟩
+          | cons p ps ihp =>
+            intro o
+            obtain ⟨om, hom⟩ := ih (n :: stack) o p hnd' hsub' hlt'
+            obtain ⟨o', ho'⟩ := ihp om
+            exact ⟨o', by simp only [List.foldlM_cons, hom]; exact ho'⟩
+        obtain ⟨o, ho⟩ := loop e.supers out
+        exact ⟨o ++ [n], by rw [ho]; rfl⟩
+
+theorem order_completes (es : List Entity) (roots : List String) :
+    ∃ out, order es (es.length + 1) roots = some out := by
+  unfold order
+  have loop : ∀ (rs : List String) (o : List String),
+      ∃ o', rs.foldlM (fun o r => dfs es (es.length + 1) [] o r) o = some o' := by
+    intro rs
+    induction rs with
+    | nil => intro o; exact ⟨o, rfl⟩
+    | cons r rs ih =>
+      intro o
+      obtain ⟨om, hom⟩ := dfs_completes es (es.length + 1) [] o r List.nodup_nil (fun s hs => by cases hs) (by simp)
+      obtain ⟨o', ho'⟩ := ih om
+      exact ⟨o', by simp only [List.foldlM_cons, hom]; exact ho'⟩
+  exact loop roots []
+
+end EntityOrder
+
+/-- Emission order of the entity classes, unconditionally: a recursion depth of (number of entities + 1) always suffices
+(the marks keep the recursion stack duplicate-free, so it never holds more than every entity of the schema), and for an
+acyclic schema and every symbol-table order of the roots every entity class is written after the classes of all its
+supertypes defined in the schema. -/
+theorem C18_entities_written_after_their_supertypes_total (es : List Entity) (hac : EntityOrder.Acyclic es)
+    (roots : List String) :
+    ∃ out, EntityOrder.order es (es.length + 1) roots = some out ∧ EntityOrder.Sorted es out ∧
+      ∀ r ∈ roots, (find es r).isSome → r ∈ out := by
+  obtain ⟨out, ho⟩ := EntityOrder.order_completes es roots
+  exact ⟨out, ho, C18_entities_written_after_their_supertypes es hac _ roots out ho⟩
+
 end StepModel.GenPy
